@@ -137,7 +137,7 @@ def run(E: Engine, rep: Report, tier: str) -> dict:
                 rep.check(ok, "TABLE", f"get_all_args|{nm}", f"tuple {tup} == parameters of Sequence.{nm}",
                           f"get_all_args{tup} does not render Sequence.{nm}{tuple(params)}: positional/keyword arguments of the recorded call would be mis-assigned", E.where(ser_f))
             else:
-                shape = _manual_record_shape(m)
+                shape = _manual_record_shape(E, m)
                 if shape is None:
                     rep.violation("TABLE", f"get_all_args|{nm}", f"manual record of {nm} not understood", E.where(m))
                     continue
@@ -161,20 +161,22 @@ def run(E: Engine, rep: Report, tier: str) -> dict:
     pep = E.method(SEQ, "_process_eom_parameters")
     for nm in ("enable_eom_mode", "modify_eom_setpoint"):
         m = E.method(SEQ, nm)
-        ab = abstractor(E.flow(m))
+        from .symutil import S as _S4, unobj as _un4
+        from .. import sym as _sym4
+
         ok = False
-        for n in ast.walk(m.node):
-            if isinstance(n, ast.Call) and (dotted(n.func) or "") == "_Call" and len(n.args) >= 3:
-                kw = n.args[2]
-                vals = {}
-                if isinstance(kw, ast.Call) and (dotted(kw.func) or "") == "dict":
-                    vals = {k.arg: k.value for k in kw.keywords}
-                elif isinstance(kw, ast.Dict):
-                    vals = {k.value: v for k, v in zip(kw.keys, kw.values) if isinstance(k, ast.Constant)}
+        for inline_, marker in ((False, "_process_eom_parameters"), (True, "calculate_detuning_off")):
+            for l in _S4(E, m, inline=inline_).calls("_Call"):
+                a_ = l.value[2]
+                kw = _un4(a_[2]) if len(a_) >= 3 else None
+                if kw is None or kw[0] != "dict":
+                    continue
+                vals = {kk[1]: vv for kk, vv in kw[1:] if kk[0] == "const"}
                 v = vals.get("optimal_detuning_off")
                 if v is not None:
-                    roots = ab.av(v).roots
-                    ok = any("_process_eom_parameters()" in r for r in roots) and "optimal_detuning_off" not in roots
+                    # the value computed by _process_eom_parameters / calculate_detuning_off (first item of the
+                    # result) is what is stored, not the argument as given
+                    ok = ok or any(t[0] == "item" and t[2] == 0 and t[1][0] == "call" and t[1][1][0] == "attr" and t[1][1][2] == marker for t in _sym4.subterms(v))
         rep.check(ok, "FLOW", f"Sequence.{nm}|records-computed-detuning_off", "the recorded optimal_detuning_off is the value computed by _process_eom_parameters",
                   f"{nm} no longer records the computed detuning_off (a rebuilt/deserialised sequence could pick a different off-detuning)", E.where(m))
     rep.floor("FLOW", 2)
@@ -239,26 +241,24 @@ def run(E: Engine, rep: Report, tier: str) -> dict:
     return {"recordable_calls": len(rec), "ops": ops_all, "serializer_branches": len(branches), **extra}
 
 
-def _manual_record_shape(m):
-    """(number of positional args, kwargs keys) of the `_Call("<name>", args, kwargs)` the method records."""
-    for n in ast.walk(m.node):
-        if isinstance(n, ast.Call) and (dotted(n.func) or "") == "_Call" and len(n.args) >= 3 and isinstance(n.args[0], ast.Constant) and n.args[0].value == m.name:
-            a, k = n.args[1], n.args[2]
-            n_args = len(a.elts) if isinstance(a, ast.Tuple) else None
-            if n_args is None and isinstance(a, ast.Name):
-                # a local tuple (set_magnetic_field: mag_vector)
-                for s in ast.walk(m.node):
-                    if isinstance(s, ast.Assign) and isinstance(s.targets[0], ast.Name) and s.targets[0].id == a.id and isinstance(s.value, ast.Tuple):
-                        n_args = len(s.value.elts)
-            if isinstance(k, ast.Dict):
-                keys = [x.value for x in k.keys if isinstance(x, ast.Constant)]
-            elif isinstance(k, ast.Call) and (dotted(k.func) or "") == "dict":
-                keys = [x.arg for x in k.keywords]
-            else:
-                return None
-            if n_args is None:
-                return None
-            return n_args, keys
+def _manual_record_shape(E, m):
+    """(number of positional args, kwargs keys) of the `_Call("<name>", args, kwargs)` the method records
+    (symbolic normal form: locals inlined, dict(...) and {...} alike)."""
+    from .symutil import S, unobj
+
+    for l in S(E, m).calls("_Call"):
+        a_ = l.value[2]
+        if len(a_) < 3 or a_[0] != ("const", m.name):
+            continue
+        a, k = unobj(a_[1]), unobj(a_[2])
+        if a[0] not in ("tuple", "list") or any(x[0] == "star" for x in a[1:]):
+            return None
+        if k[0] != "dict":
+            return None
+        keys = [kk[1] for kk, _v in k[1:] if kk[0] == "const"]
+        if len(keys) != len(k) - 1:
+            return None
+        return len(a) - 1, keys
     return None
 
 
